@@ -12,6 +12,8 @@ PENDING = "check under construction in this session (claimed once its rules run 
 CLAIMS = {
  "C01": ("necessary structural conditions of panic/abort/memory safety decided on the MIR of the current tree: guarded input-driven recursion (call-graph SCCs with depth-guard dominance), confinement and padding of the over-reading reader, parse may not end in the padding, bounds comparison in the checked reader, clamped error index, unreachable todo!() bodies, capacity-guarded node buffer, remaining-length check before fixed-width vector loads. Absence of all arithmetic/bounds panics on arbitrary inputs is NOT decided",
          "trusts rustc's MIR and callee resolution; callback model for serde visitors; unbounded recursion of the DOM parser and validating skipper is a listed known finding (F1a/F1b)"),
+ "C02": ("structural necessary conditions of exact acceptance decided on the current tree: final trailing/UTF-8 checks cannot be bypassed in from_trait (must-pass-through on the CFG), every whitespace classifier of the configuration evaluated over all 256 bytes, literal spellings at every dispatch site, hex validation on the \\u branch of every escape interpreter, no non-validating skipper reachable from validating entries (flag-specialised call-graph reachability), UTF-8 verdict checked before skipped/in-place bytes are handed out, infinity test on floats that can overflow, one-fraction flag discipline in the number skipper. The grammar byte by byte is NOT decided",
+         "trusts rustc's MIR/callee resolution, class-hierarchy edges for the sealed Reader trait, the callback model for serde, pshufb/pcmpeqb semantics as encoded in the rule"),
  "C05": ("structural necessary conditions of well-formed output decided on the current tree: the three escape tables equal RFC 8259 §7 for all 256 bytes and decode back with the crate's own reader tables (exhaustive table oracle); the reserved window is the affine form the escaper asserts and covers its worst case; no writer/serializer Result is dropped or swallowed and no short write count is ignored (error-discipline dataflow over every serializer/formatter/writer body); float writers reached only on finite classes; forwarding WriteExt impls keep one byte order; quotes only under need_quote. Full well-formedness of output for arbitrary Serialize impls is NOT decided",
          "trusts rustc's const evaluator for table bytes and MIR for bodies; RFC 8259 escape set encoded in the rule file"),
  "C07": ("every constant table and constant the float paths depend on is compared entry by entry with independent big-integer generators (exhaustive over each table: 651 power-of-five pairs, 1308 shift digits, exact powers of ten, RawFloat constants, x86 multiplier words); the sign parameter reaches every float/integer result (dependence analysis, sign of zero included); Eisel-Lemire/long-mantissa results pass an infinity test; typed entry points contain no narrowing cast. Correct rounding of the algorithms using the tables is NOT decided",
